@@ -13,6 +13,13 @@ for l in open('/verif/properties.jsonl'):
     p=json.loads(l)
     if p['id']==pid:
         open('/tmp/wt/out-%s/property.txt'%n,'w').write("ID: %s\nTitle: %s\nStatement: %s\nQuantifier: %s\n"%(p['id'],p['title'],p['statement'],p['quantifier']['text']))
-open('/tmp/wt/out-%s/prompt.txt'%n,'w').write(open('/verif/tools/refactor_prompt.tmpl').read().replace('@ID@',n))
+tmpl=open('/verif/tools/refactor_prompt.tmpl').read().replace('@ID@',n)
+import glob
+prev=[]
+for f in sorted(glob.glob('/verif/selftest/equivalent/%s-*-notes.md'%pid)):
+    prev.append(open(f).read()[:1800])
+if prev:
+    tmpl=tmpl.replace('For each refactoring k = 1, 2, 3:', 'Earlier maintainers already did the following refactorings for this property; pick DIFFERENT functions where possible, and different kinds of rewrite:\n<<<\n'+'\n---\n'.join(prev)+'\n>>>\n\nFor each refactoring k = 1, 2, 3:',1)
+open('/tmp/wt/out-%s/prompt.txt'%n,'w').write(tmpl)
 PY
 done
